@@ -1,6 +1,6 @@
 // C08: meaning-preserving rewrites of the source do not change validators.
 // Differential (no reference needed): same accept vectors over U(T) in default and strict mode, same hash256.
-import { Reporter, TIER, SEED, valueKind, sha } from "./common.mjs";
+import { Reporter, TIER, SEED, valueKind, sha, loadKnownFindings } from "./common.mjs";
 import { sweepPrograms } from "./sweep.mjs";
 import { rewriteVariants, REWRITES, STYLES } from "./rewrites.mjs";
 import { renderProgram, skeleton, render } from "./spec.mjs";
@@ -28,6 +28,20 @@ function vectors(parser, U) {
     s += b === true ? "1" : b === false ? "0" : "x";
   }
   return { d, s };
+}
+
+// A chain of two rewrites is compared with the base program: a difference that a known finding already explains for
+// one rewrite of the chain is attributed to that rewrite (later ones first), otherwise to the last one.
+const KNOWN_KEYS = new Set(loadKnownFindings().filter((f) => f.property === "C08" && f.status === "known").map((f) => f.key));
+function attribute(chain, keyOf) {
+  const parts = chain.split("+");
+  for (let i = parts.length - 1; i >= 0; i--) if (KNOWN_KEYS.has(keyOf(parts[i]))) return keyOf(parts[i]);
+  return keyOf(parts[parts.length - 1]);
+}
+
+function oneSidedClass(a, b, cls) {
+  const cs = classSetDiff(a, b);
+  return cs.baseOnly.split(",").includes(cls) !== cs.rewrittenOnly.split(",").includes(cls);
 }
 
 export async function run() {
@@ -96,19 +110,18 @@ export async function run() {
                 stats.comparisons++;
                 const vec = vectors(p2[n1], b.U);
                 stats.evaluations += 2 * b.U.length;
-                const detail = { engine: "E-src", base: baseText, rewritten: text, parser: n0, rewrite: vp.v.rewrite, type: b.type };
+                const detail = { engine: "E-src", base: baseText, rewritten: text, parser: n0, rewrite: vp.v.rewrite, type: b.type, case_id: b.skel };
                 for (const mode of ["d", "s"]) {
                   if (vec[mode] !== b.vec[mode]) {
                     const i = [...vec[mode]].findIndex((c, k) => c !== b.vec[mode][k]);
                     const vs = toSrc(b.U[i]);
-                    const rw = vp.v.rewrite.split("+").slice(-1)[0];
                     const cs = classSetDiff(b.parser, p2[n1]);
                     const oneSided = (c) => cs.baseOnly.split(",").includes(c) !== cs.rewrittenOnly.split(",").includes(c);
                     let cause = null;
                     if (mode === "s" && vec.d === b.vec.d && oneSided("AllOf")) cause = "strict mode with a run-time intersection on one side only (known C11 defect)";
                     else if (b.skel.includes("index(inter(") && oneSided("Never")) cause = "indexed access on an intersection with a named member is never (known C01 defect)";
                     rep.violation(
-                      cause ? `C08 behaviour changes under ${rw} : ${cause}` : `C08 behaviour changes under ${rw} : ${b.skel} : ${mode === "d" ? "default" : "strict"} ${b.vec[mode][i]}->${vec[mode][i]}`,
+                      attribute(vp.v.rewrite, (rw) => (cause ? `C08 behaviour changes under ${rw} : ${cause}` : `C08 behaviour changes under ${rw} : ${b.skel} : ${mode === "d" ? "default" : "strict"} ${b.vec[mode][i]}->${vec[mode][i]}`)),
                       `parser ${n0} (\`${b.type}\`) ${mode === "d" ? "" : "in strict mode "}answers ${b.vec[mode][i]} before and ${vec[mode][i]} after rewrite ${vp.v.rewrite} on ${vs}`,
                       { ...detail, value: vs, mode },
                       cause ? {} : { valueSrc: vs, valueKind: valueKind(build(b.U[i])) },
@@ -132,7 +145,8 @@ export async function run() {
                   if (o2 === b.ordered) rep.violation(`C08 hash256 differs for structurally identical validators under ${vp.v.rewrite}`, `hash256 of parser ${n0} changes under ${vp.v.rewrite} although the validator trees are identical up to names`, detail);
                   else if (s2 === b.sorted) rep.violation(`C08 member order: hash256 of a union/intersection depends on the order the compiler gives its members (names, alias boundaries, source order)`, `hash256 of parser ${n0} changes under ${vp.v.rewrite}: the validators differ only in member order`, detail);
                   else if (b.skel.includes("index(inter(") && /Never/.test(classSetDiff(b.parser, p2[n1]).text)) rep.violation(`C08 hash256 changes : indexed access on an intersection with a named member is never (known C01 defect)`, `hash256 of parser ${n0} (\`${b.type}\`) changes under ${vp.v.rewrite}`, detail);
-                  else rep.violation(`C08 hash256 changes under ${vp.v.rewrite.split("+").slice(-1)[0]} (different validator structure: ${classSetDiff(b.parser, p2[n1]).text})`, `hash256 of parser ${n0} (\`${b.type}\`) changes under ${vp.v.rewrite}; the compiler produced structurally different validators`, detail);
+                  else if (oneSidedClass(b.parser, p2[n1], "AllOf")) rep.violation(attribute(vp.v.rewrite, (rw) => `C08 hash256 changes under ${rw} : an intersection is evaluated at run time on one side only (alias boundary of an intersection member)`), `hash256 of parser ${n0} (\`${b.type}\`) changes under ${vp.v.rewrite}: one side keeps a run-time AllOf where the other has the merged object (${classSetDiff(b.parser, p2[n1]).text})`, detail);
+                  else rep.violation(attribute(vp.v.rewrite, (rw) => `C08 hash256 changes under ${rw} (different validator structure: ${classSetDiff(b.parser, p2[n1]).text})`), `hash256 of parser ${n0} (\`${b.type}\`) changes under ${vp.v.rewrite}; the compiler produced structurally different validators`, detail);
                 } else if (samples.length < 4 && stats.comparisons % 997 === 3) samples.push({ rewrite: vp.v.rewrite, parser: n0, type: b.type, hash256: b.h256.slice(0, 16), values: b.U.length });
               }
             },
